@@ -9,7 +9,7 @@ def harness_files(tier, seed):
 
 
 META = dict(
-    bounds="(i) histories of 5 operations (use / drop, chosen by the solver) over 8 type factories, 4 symbolic id-recycling bits, a "
+    bounds="(i) histories of 5 operations (use / drop, chosen by the solver) over 10 type factories, 4 symbolic id-recycling bits, a "
            "symbolic leaf in the converted value; (ii) 3 (type, handler form) calls in symbolic order + repetition of the first, 6 "
            "types x 7 handler forms; 3 generic subscriptions in symbolic order out of 7; (iii) 2 interleaved KeyCache calls with 8 "
            "symbolic schedule bits, keys in 0..2, maxsize in {None, 1, 2}; sequential LRU histories of 5 calls over 3 keys",
